@@ -165,8 +165,20 @@ static ASMJIT_INLINE bool check_op_sig(const InstDB::OpSignature& op, const Inst
 
   // Fail if some memory specific flags do not match.
   if (Support::test(common_flags, InstDB::OpFlags::kMemMask)) {
-    if (ref.has_flag(InstDB::OpFlags::kFlagMemBase) && !op.has_flag(InstDB::OpFlags::kFlagMemBase)) {
-      return false;
+    if (ref.has_flag(InstDB::OpFlags::kFlagMemBase)) {
+      if (!op.has_flag(InstDB::OpFlags::kFlagMemBase)) {
+        return false;
+      }
+
+      // Implicit memory operand 'seg:[reg]' - the base register must be the one the instruction uses.
+      if (ref.reg_mask() && !Support::test(op.reg_mask(), ref.reg_mask())) {
+        return false;
+      }
+
+      // Implicit memory operand 'es:[reg]' - the segment cannot be overridden.
+      if (ref.has_flag(InstDB::OpFlags::kFlagMemEs) && !op.has_flag(InstDB::OpFlags::kFlagMemEs)) {
+        return false;
+      }
     }
   }
 
@@ -364,6 +376,11 @@ static ASMJIT_FAVOR_SIZE Error validate(InstDB::Mode mode, const BaseInst& inst,
 
           if (index_type == RegType::kNone && !m.offset_lo32()) {
             op_flags |= InstDB::OpFlags::kFlagMemBase;
+
+            // Compatible with implicit 'es:[reg]' operand only if the segment is not overridden.
+            if (!m.has_segment() || m.segment_id() == SReg::kIdEs) {
+              op_flags |= InstDB::OpFlags::kFlagMemEs;
+            }
           }
         }
         else if (base_type == RegType::kLabelTag) {
